@@ -6,7 +6,7 @@ ROOT = os.path.dirname(os.path.dirname(os.path.abspath(__file__)))
 
 # id -> (technique, level text, level note, design ref)
 CLAIMED = {
- "C01": ("SSA dataflow over Read results (use-before-error-test), constant provenance of the requested block-checksum length, loop-exit analysis of the whole-file send loop; plus the necessary conditions shared with C02, C12, C14/FIELDS and C15/W5 re-evaluated under their own rule names",
+ "C01": ("SSA dataflow over Read results (use-before-error-test), constant provenance of the requested block-checksum length, loop-exit analysis of the whole-file send loop; plus the necessary conditions shared with C02, C12, C14/FIELDS and C15/W5 re-evaluated under their own rule names; loop-exit analysis of the sender's window fill (no unread byte is handed on)",
          "Partial, structural; byte equality itself is NOT decided. Decides necessary conditions of 'a transfer of a static tree succeeds and reproduces the bytes': block checksums are requested at full MD4 length (there is no redo pass for a file whose whole-file checksum fails); every direct Read in the data path uses the bytes it returned before acting on the error (io.EOF may come with data); the whole-file path writes exactly buf[:n] after its length, leaves its loop only on the Read's error and ends with the end-of-data token; and, shared: the delta clauses of C02, the update-rule tables of C12, encoder/decoder agreement of the file-list fields (C14/FIELDS) and identical numbering on both ends (C15/W5).",
          "Trusted: MD4, os.Root/renameio. Not covered: offsets/window/block arithmetic, token encoding, name mapping of source arguments, option combinations. One genuine defect repaired by a fix: commit (F24).",
          "DESIGN.md §13"),
@@ -14,19 +14,19 @@ CLAIMED = {
          "Partial, structural; the bound on literal bytes is NOT decided. Decides necessary conditions of 'unchanged data is found again': the generator requests the whole file only when the destination is missing, not regular or cannot be opened, and otherwise sums the opened destination file; every block up to SumSizesSqroot's count gets its weak and strong sum over the bytes just read; the sender tries every candidate with the window's tag (rejections continue the candidate loop) at every byte offset (outside the match path the scan position only ever advances by one, on every iteration); the lookup structures and Transfer.lastMatch are rebuilt/reset for every file; the targets are sorted by a comparator that is an ordering of the tags; no slice of the read window is kept across ptr calls; a from-scratch recomputation of the rolling checksum precedes the roll of its iteration.",
          "Trusted: the checksum definitions (C02/ONE-DEFINITION). Not covered: rolling-checksum algebra, tag function, block-size selection, the end bound — arithmetic over runtime data.",
          "DESIGN.md §13"),
- "C18": ("store/effect scan over the session call tree (escape-edge VTA graph), allocation-site provenance of session objects, per-goroutine field access partition, SSA dominance for joins, structural shape of the cancellation select",
+ "C18": ("store/effect scan over the session call tree (escape-edge VTA graph), allocation-site provenance of session objects, per-goroutine field access partition, SSA dominance for joins, structural shape of the cancellation select, pass-through/full-read classification of every read in package rsyncwire",
          "Partial. Decides the data-race side structurally (there are no locks, so shared state must not be written): no session-reachable store to package-level or server-wide state; session objects are allocated per session; the only package-level variables session code touches are a reviewed allow-table; the generator and receiver goroutines partition the fields they write; results are read after the join; temporary files are renameio pending files (random name, O_EXCL), never names derived from the target, so two sessions receiving the same path cannot share one. For termination only the necessary condition that waitFor returns on cancellation without waiting for the abandoned goroutine. Deadlock freedom/termination under all schedules is NOT decided (not applicable to static analysis).",
          "Trusted: errgroup/context semantics; embedding program's logger. Authorised-SSH users re-entering the CLI are a new program run, not session code.",
          "DESIGN.md §3 C18"),
- "C11": ("path enumeration with events over the generator (must-pass-through setPerms), finite-assignment CFG walks for option guards and type tables (phi-choice tracking), provenance of metadata field bindings",
+ "C11": ("path enumeration with events over the generator (must-pass-through setPerms), finite-assignment CFG walks for option guards and type tables (phi-choice tracking), provenance of metadata field bindings, typestate (stat – replace – use) of the FileInfo setPerms compares with",
          "Partial, structural: every created/accepted entry goes through setPerms; each metadata syscall is controlled by its own option and privilege condition for all 64 condition assignments; wire type ↔ Go mode ↔ system-call tables agree per file type; each field travels from its accessor to its sink; the owner-write touch-up is set and consumed consistently; without -p an up-to-date file keeps its own permission bits; mtimes compare at one-second granularity; the entry encoder puts every entry's own mode, mtime, ids, rdev and link target on the wire (one record sequence per assignment, never 'same as previous'). Numeric fidelity is not decided.",
          "Trusted: kernel/os.Root metadata calls. One genuine defect repaired by a fix: commit.",
          "DESIGN.md §3 C11"),
- "C14": ("wire-sequence extraction by finite-assignment CFG walk of encoder and decoder (compared with each other, no oracle), emission-table ∘ parse-table composition over all option assignments, sibling agreement of the two TransferOpts literals, handshake sequence extraction",
+ "C14": ("wire-sequence extraction by finite-assignment CFG walk of encoder and decoder (compared with each other, no oracle), emission-table ∘ parse-table composition over all option assignments, sibling agreement of the two TransferOpts literals, handshake sequence extraction, sibling agreement of the Transfer fields configured by daemon and client",
          "Decides: for all 7×64 (file type × option subset) assignments the decoder consumes exactly what the encoder emits; every option the server consults is forwarded and arrives with the client's value (2^n assignments through the extracted emission and parse tables); both receiver configurations bind fields to the same accessors; handshake, filter-list and id-list reads/writes are mirror images (same options, same order); a zero-terminated list never carries an empty string; option post-processing (recurse ⇒ dirs) is applied on both ends. Desynchronisation freedom for options outside the accepted set is not decided.",
          "Trusted: the extraction vocabulary (atoms) — anything outside it makes the check undecided (fails closed). Two genuine defects repaired by fix: commits.",
          "DESIGN.md §3 C14"),
- "C15": ("wire-sequence extraction (7×64 encoder, 7×64×128 decoder assignments) compared with a frozen protocol-27 table; constant table; sibling agreement (longint, checksum header); sort/numbering dominance",
+ "C15": ("wire-sequence extraction (7×64 encoder, 7×64×128 decoder assignments) compared with a frozen protocol-27 table; constant table; sibling agreement (longint, checksum header); sort/numbering dominance; frozen vocabulary of the entry decoder's own rejections (range tests only)",
          "Partial: the oracle is a transcription of protocol 27 (rsync 2.6.x flist.c/io.c/rsync.h), not a foreign implementation. Decides that encoder and decoder field sequences, flag-controlled alternatives, same-as-previous copies, constants, longint encoding, checksum header order and file numbering conform to that table.",
          "Trusted: the transcription itself (listed in evidence trusted_base). No independent protocol-27 implementation can be run statically.",
          "DESIGN.md §3 C15"),
@@ -34,15 +34,15 @@ CLAIMED = {
          "Decides: only public-key auth is ever configured; the key callback accepts iff the listener is anonymous or the presented key is in the loaded set (which is non-nil whenever an authorised address is configured); only session channels and env/exec requests are handled; from the anonymous listener's exec callback no CLI/client entry, process spawn, dial or listener is reachable while the daemon handler is, and the module table it serves is the configured one.",
          "Trusted: x/crypto/ssh. Context-insensitive reachability (a mode check inside the general entry point would still be reported). One genuine defect repaired by a fix: commit.",
          "DESIGN.md §3 C20"),
- "C08": ("call-graph reachability of process terminators from session entry points + intraprocedural/interprocedural integer taint with dominating-comparison bounds (SSA)",
+ "C08": ("call-graph reachability of process terminators from session entry points + intraprocedural/interprocedural integer taint with dominating-comparison bounds (SSA) + provenance/bound analysis of every index into the peer-sized block-checksum list",
          "Partial, structural: no os.Exit/log.Fatal/explicit panic is reachable from daemon, client or SSH session entry points; every integer read from the wire that reaches an index, slice bound or make length is bounded by dominating comparisons; SumHead fields are range-checked by their reader; integer divisions have non-zero divisors; window slices are tested for emptiness before indexing; fixed-width decodes and constant indices on byte slices, and constant indices on strings in the wire-facing packages, have an established minimum length; every output stream session code writes to is set in the session environment; connection errors cannot reach the accept loop. Other nil dereferences, arithmetic-dependent panics and library panics are NOT decided.",
          "Trusted: VTA call-graph soundness assumptions; Go runtime semantics of bounds checks. Three genuine defects repaired by fix: commits. The demultiplexer's buffer-size panic is discharged through C17/BUFFER+LENGTH-GATE.",
          "DESIGN.md §3 C08"),
- "C17": ("value-flow (use-set) of the demultiplexer and its buffer, SSA guard dominance of length checks, who-may-call for session reads, decision table of the frame reader, constant relations",
+ "C17": ("value-flow (use-set) of the demultiplexer and its buffer, SSA guard dominance of length checks, who-may-call for session reads, decision table of the frame reader, constant relations, lock-discipline must-analysis (Lock/Unlock over the CFG with callee summaries) for frame atomicity, construction-site lateness of the MultiplexWriter w.r.t. goroutine spawns",
          "Decides the structural reduction of framing transparency: the demultiplexer only sits behind a buffer ≥ the largest frame and is only Read; frame lengths are masked and gated before allocation; error/info/data/unknown tags are dispatched as stated; all session reads are full reads; emitted headers encode a bounded length equal to the bytes written; multiplexing is switched on exactly once on each side; no session reader is widened beyond Read.",
          "Trusted: bufio.Reader.Read behaviour. End-to-end equality across re-framings is not decided.",
          "DESIGN.md §3 C17"),
- "C13": ("SSA guard dominance (SkipDir only for directories), def/use agreement between rule parsing and rule matching (every settable flag is read or rejected), decision-table extraction of first-match, provenance of the rule list handed to the sender",
+ "C13": ("SSA guard dominance (SkipDir only for directories), def/use agreement between rule parsing and rule matching (every settable flag is read or rejected), decision-table extraction of first-match, provenance of the rule list handed to the sender, writer/reader agreement on the rule grammar (path enumeration between option argument and rule list), leading-slash decision",
          "Partial, structural: excluded files never cut the walk; every flag the parser can set is honoured by the matcher or rejected with an error; no explicit panic under the matcher; first matching rule decides by its include flag; a plain-name rule is decided by string equality and loses exactly the prefix that was tested; both sender entry points receive the user's rules; the receiving client sends its rules before the list terminator and never sends an empty rule (whose length is the terminator); the filter decision dominates every persistent store and wire write of the walk callback (an excluded entry leaves no trace in what follows). String semantics of matching are not decided.",
          "Trusted: fs.WalkDir SkipDir semantics. Five genuine defects found by these rules were repaired by fix: commits (known_findings.json).",
          "DESIGN.md §3 C13"),
@@ -58,11 +58,11 @@ CLAIMED = {
          "Decides that skipFile implements exactly size → (-c: content checksum) → (-I: always) → mtime at one-second granularity, and that recvGenerator requests a regular entry iff missing / not regular / skipFile false, for every path (unknown conditions explored both ways); the mtime is applied under -t; the entry encoder carries every entry's own length, mtime and (under -c) checksum; no process-wide state (caches) under the file-list construction and the generator. Behaviour of time.Time and of repeat syncs end-to-end is not decided.",
          "Trusted: time.Truncate/Equal, bytes.Equal. Fail-closed: an unrecognised condition in skipFile makes the check fail as undecided.",
          "DESIGN.md §3 C12"),
- "C19": ("decision-table extraction by path enumeration over the SSA CFG (atoms by operand provenance) + guard dominance of the OK reply",
+ "C19": ("decision-table extraction by path enumeration over the SSA CFG (atoms by operand provenance) + guard dominance of the OK reply + value provenance of the host handed to the IP parser (zone removed)",
          "Decides that checkACL's complete path table equals first-match allow/deny with default allow and error on a malformed rule reached, using net.IPNet.Contains on the parsed peer address; that the OK reply and the session start are dominated by a successful module lookup and ACL check with the accepted connection's address; and that no other caller reaches handleConn.",
          "Trusted: package net semantics (IPv4-mapped normalisation in IPNet.Contains). Fail-closed on unrecognised conditions.",
          "DESIGN.md §3 C19"),
- "C03": ("SSA must-pass-through (guard dominance) + value provenance of the compared buffers + use-set (typestate) of the pending file",
+ "C03": ("SSA must-pass-through (guard dominance) + value provenance of the compared buffers + use-set (typestate) of the pending file + loop-exit analysis of the sender's window fill",
          "Decides: every CloseAtomicallyReplace is dominated by bytes.Equal(full h.Sum(nil), full trailer read from the wire)==true; the pending file is only ever written through io.MultiWriter(out,h) with the same seeded hash; hash seeding identical on both ends; no replace-on-close API anywhere; the error of receiveData is propagated at every call site up to the session result. Does not decide that MD4 detects every corruption.",
          "Trusted: MD4 (probabilistic), renameio semantics. The idiom set for error propagation is the repository's (`if err != nil {return}` / `return f()`).",
          "DESIGN.md §3 C03"),
